@@ -151,7 +151,7 @@ class Zoo(object):
                 for _ in range(n_ids)]
 
         def build():
-            pm = chi.ComposedPopulationModel([c02.make_sub(chi, *s) for s in subs])
+            pm = chi.ComposedPopulationModel([c02.make_sub(chi, *s, n_ids=n_ids) for s in subs])
             lls = [chi.LogLikelihood(toy.ToyModel(1, D - 1, 3), chi.GaussianErrorModel(), o, t) for t, o in data]
             h = chi.HierarchicalLogLikelihood(lls, pm, covariates=None if cov is None else cov.copy())
             if posterior:
